@@ -197,20 +197,31 @@ class World:
         self.features = set()     # shape features actually generated (for evidence floors)
         self.genesis = None
         self.pending_cb = []      # pre-ground colliding coinbase txs still to be spliced in
+        self.reserved_cb = []     # colliding coinbases held back for a deliberate later use
+        self.protected = set()    # tx hashes whose outputs random spending leaves alone (explicit prefer= still spends them)
         self.coll_hashes = set()  # hashes of all colliding txs used
         self.coll_prob = 0.5
         self.readd_on_reorg = False   # daemon puts txs of disconnected blocks back into its mempool (bitcoind behaviour)
 
-    def use_collisions(self, nfam=2, rng=None):
-        '''Schedule nfam families of colliding coinbases to be used as coinbases of coming blocks.'''
+    def use_collisions(self, nfam=2, rng=None, kind='same', reserve=False):
+        '''Schedule nfam families of colliding coinbases to be used as coinbases of coming blocks.
+        kind 'same': members pay identical outputs; 'diff': members pay different scripts and values at the
+        same output index (confusing two members is then visible in script hash and value).'''
         rng = rng or self.rng
         fams = load_collision_corpus()
+        if kind != 'any':
+            fams = [f for f in fams if (len({parse_tx(r).outs and tuple(parse_tx(r).outs) for r in f}) > 1) == (kind == 'diff')]
         if not fams:
             return
         for fam in rng.sample(fams, min(nfam, len(fams))):
             txs = [parse_tx(raw) for raw in fam]
             txs = [t for t in txs if t.hash not in self.txs]
             rng.shuffle(txs)
+            if reserve and len(txs) > 1:
+                # one member goes on the chain soon; the others are kept for a later, deliberate use
+                self.reserved_cb.extend(txs[1:])
+                txs = txs[:1]
+                self.protected.add(txs[0].hash)
             self.pending_cb.extend(txs)
         rng.shuffle(self.pending_cb)
 
@@ -294,7 +305,7 @@ class World:
             chosen = pref[:k]
         if len(chosen) < k:
             taken = set(chosen)
-            pool = [o for o in u if o not in taken]
+            pool = [o for o in u if o not in taken and (not self.protected or o[0] not in self.protected)]
             chosen += rng.sample(pool, min(len(pool), k - len(chosen)))
         if not chosen:
             return None
@@ -351,7 +362,7 @@ class World:
         for _ in range(ntx):
             prefer = None
             if self.coll_hashes and rng.random() < 0.35:
-                prefer = [o for o in u if o[0] in self.coll_hashes]
+                prefer = [o for o in u if o[0] in self.coll_hashes and o[0] not in self.protected]
             t = self.random_tx(u, h, rng, prefer=prefer)
             if t is None:
                 break
